@@ -196,11 +196,22 @@ def check(P: Project, R: Report) -> None:
             return "open:" + subst_text(call.args[0], st)
         return None
 
+    in_handlers = {id(x) for t_ in walk_local(ld.node) if isinstance(t_, ast.Try) for h_ in t_.handlers for x in walk_local(h_)}
+
+    def lsev(stmt, st, an):
+        # a `raise X(...)` of the loader's own (not a handler translating what open()/json/float() raised) on a path whose
+        # conditions mention the entry's timeout
+        if isinstance(stmt, ast.Raise) and stmt.exc is not None and id(stmt) not in in_handlers:
+            about = sorted(an.origin(l)[:70] for l in st.lits if "'timeout'" in an.origin(l))
+            if about:
+                return [f"ownraise:{stmt.lineno}:" + " & ".join(about[:3])]
+        return []
+
     try:
-        la, lo = run_paths(ld.node, event_of=lev, fallible=True)
+        la, lo = run_paths(ld.node, event_of=lev, stmt_event_of=lsev, fallible=True)
     except AnalysisError:
         # (a scanner or a validation loop read in at its call site: same economy as for the entry points above)
-        la, lo = run_paths(ld.node, event_of=lev, fallible=True, gc_dead_terms=True, forget_at_loop_back=True)
+        la, lo = run_paths(ld.node, event_of=lev, stmt_event_of=lsev, fallible=True, gc_dead_terms=True, forget_at_loop_back=True)
     la.parents = {**A.exception_parents(P)}
     R.paths += len(lo.ret) + len(lo.exc)
     R.need(lo.ret, "load_config has no returning path")
@@ -232,6 +243,19 @@ def check(P: Project, R: Report) -> None:
         # the unknown-name test dominates
         R.ob("R2", "returns only for a configured server", any("not " not in l and ".get('mcpServers'" in la.origin(l) for l in st.lits) or any(l.startswith("server_config") for l in st.lits) or any(".get(" in l and not l.startswith("not ") for l in st.lits), f"{ld.module.rel}:{node.lineno}", f"literals {sorted(l[:50] for l in st.lits)}")
 
+    # R7 in the loader: a timeout entry is refused only by float() itself — int, float and every string float() reads
+    # ("30", "1e3", ".5", " 2 ") are the spellings a configuration may use; a test of the loader's own that raises for some
+    # of them makes a valid configuration unloadable, and the server it names is never launched
+    n_to = 0
+    own = sorted({e for st, _t, _n in lo.exc for e in st.events if e.startswith("ownraise:")})
+    for e in own:
+        _k, ln, about = e.split(":", 2)
+        n_to += 1
+        R.ob("R7", "load_config refuses a timeout entry only where float() does", False, f"{ld.module.rel}:{ln}",
+             f"the loader raises an error of its own under `{about}`: it adds a test on the timeout it read — spellings float() accepts (\"1e3\", \"+5\", \".5\", \"1_000\") or values it used to pass on are now a configuration error, and that server is never launched")
+    if not n_to:
+        R.ob("R7", "load_config adds no test of its own on the timeout entry", True, ld.where, "", sample="R7 load_config: no explicit raise on a path conditioned on the entry's timeout")
+
     # ------------------------------------------------------------------ R4
     for t_ in walk_local(ld.node):
         if isinstance(t_, ast.Try):
@@ -243,7 +267,15 @@ def check(P: Project, R: Report) -> None:
         if isinstance(node, ast.Raise):
             raised.setdefault(tag, []).append((st, node))
     # unknown server -> ValueError
-    unknown = [(st, n) for tag, lst in raised.items() for st, n in lst if any(l.startswith("not ") and ("mcpServers" in la.origin(l) or f".get({name})" in la.origin(l)) for l in st.lits)]
+    def _entry_absent(l: str) -> bool:
+        """the literal says the selected entry itself is missing/empty (not something computed from one of its members)"""
+        if l.startswith("not "):
+            o = la.origin(l[4:]).strip("<>")
+            return o.endswith(f".get({name})") or o.endswith(f".get({name}, None)") or o.endswith(f"[{name}]") or o.endswith(f".get({name}, {{}})")
+        o = la.origin(l)
+        return (f"{name} not in " in o and "mcpServers" in o) or ((o.endswith(" is None") or o.endswith(" == None")) and o.rsplit(" ", 2)[0].strip("<>").endswith(f".get({name})"))
+
+    unknown = [(st, n) for tag, lst in raised.items() for st, n in lst if any(_entry_absent(l) for l in st.lits)]
     tags_unknown = {t for t, lst in raised.items() for st, n in lst if (st, n) in unknown}
     R.ob("R4", "unknown server name → ValueError", tags_unknown == {"ValueError"}, ld.where, f"classes raised on the unknown-name path: {sorted(tags_unknown)}")
     for t in walk_local(ld.node):
